@@ -296,15 +296,28 @@ enum Out {
 /// CLASS: 0 success, 1 error, 2 indication, 3 request.  CODE: error code (0 = no ERROR-CODE).
 /// SHAPE: which attributes the message carries.  HAD: 0 = no cached parameters, 1 = cached without
 /// algorithms/user hash, 2 = cached with algorithms and user hash.
-fn c08_recv<const CLASS: u8, const CODE: u16, const SHAPE: u32, const HAD: u8>() {
-    let reliable: bool = kani::any();
+/// ST: mechanism state before the message (0..3) or 9 = arbitrary; REL: 0 unreliable, 1 reliable, 2 = arbitrary
+fn c08_recv_x<const CLASS: u8, const CODE: u16, const SHAPE: u32, const HAD: u8, const ST: u8, const REL: u8>() {
+    let reliable: bool = if REL == 2 { kani::any() } else { REL == 1 };
     let mut c = LongTermCredentialClient::new(UserName(1), "p", reliable);
     let had = HAD != 0;
     let p = params_shaped(HAD == 2, HAD == 2);
     if had {
         install(&mut c, &p);
     }
-    let (st, stk) = any_state();
+    let (st, stk) = if ST == 9 {
+        any_state()
+    } else {
+        (
+            match ST {
+                0 => LongTermCredentialState::FirstRequest,
+                1 => LongTermCredentialState::Retry(RetryCause::Unauthenticated),
+                2 => LongTermCredentialState::Retry(RetryCause::StaleNonce),
+                _ => LongTermCredentialState::SubsequentRequest,
+            },
+            ST,
+        )
+    };
     c.state = st;
     let class = match CLASS {
         0 => MessageClass::SuccessResponse,
@@ -459,6 +472,10 @@ fn c08_recv<const CLASS: u8, const CODE: u16, const SHAPE: u32, const HAD: u8>()
     std::mem::forget(c);
 }
 
+fn c08_recv<const CLASS: u8, const CODE: u16, const SHAPE: u32, const HAD: u8>() {
+    c08_recv_x::<CLASS, CODE, SHAPE, HAD, 9, 2>();
+}
+
 macro_rules! lt_inst {
     ($($name:ident = $e:expr;)*) => {$(
         #[kani::proof]
@@ -509,6 +526,12 @@ lt_inst! {
     c08_recv_success_both = c08_recv::<0, 0, { F_MI | F_SHA }, 1>();
     c08_recv_success_plain = c08_recv::<0, 0, 0, 1>();
     c08_recv_success_no_params = c08_recv::<0, 0, { F_MI }, 0>();
+    // quick-tier instances: mechanism state and transport concrete (SubsequentRequest / FirstRequest, unreliable)
+    c08_recvq_401_first_challenge = c08_recv_x::<1, 401, { F_REALM | F_NONCE | F_ALGS }, 0, 0, 0>();
+    c08_recvq_401_second_challenge = c08_recv_x::<1, 401, { F_REALM | F_NONCE | F_ALGS }, 1, 3, 0>();
+    c08_recvq_438_nonce_mi = c08_recv_x::<1, 438, { F_NONCE | F_MI }, 1, 3, 0>();
+    c08_recvq_success_mi = c08_recv_x::<0, 0, { F_MI }, 1, 3, 1>();
+    c08_recvq_indication = c08_recv_x::<2, 0, { F_MI }, 1, 3, 0>();
     // indications and requests are refused
     c08_recv_indication = c08_recv::<2, 0, { F_MI }, 1>();
     c08_recv_request = c08_recv::<3, 0, { F_SHA }, 2>();
